@@ -7,7 +7,7 @@
    compared with the declared meaning on every run. *)
 From Coq Require Import List Bool NArith String.
 From PC Require Import Base.Result Model.Pep440 Spec.Pep440Spec Model.Generic Model.Marker Model.PyRange
-     Proofs.MarkerProofs Proofs.PyRangeProofs.
+     Model.MarkerAlg Proofs.MarkerProofs Proofs.MarkerAlgProofs Proofs.PyRangeProofs.
 Import ListNotations.
 Open Scope N_scope.
 
@@ -27,6 +27,18 @@ Section Composition.
 End Composition.
 Print Assumptions C02_requirement_meaning.
 Print Assumptions C02_no_condition_dropped.
+
+(* the premise discharged by the simplifier's own soundness (C07), on every class of clauses meeting its premises: the marker
+   the decorated intersection returns for the three conditions holds exactly when all three hold *)
+Theorem C02_requirement_meaning_simplified : forall E R, clause_class E R ->
+  forall fuel st d p pl r, G R d -> G R p -> G R pl ->
+  intersection_fn fuel st [d; p; pl] = Ok r -> beval E r = beval E d && beval E p && beval E pl.
+Proof.
+  intros E R CC fuel st d p pl r Gd Gp Gpl H.
+  destruct (nary_sound E R CC fuel st [d; p; pl]) as [I _]; [repeat constructor; assumption|].
+  destruct (I r H) as [V _]. rewrite V. cbn [forallb]. rewrite andb_true_r, andb_assoc. reflexivity.
+Qed.
+Print Assumptions C02_requirement_meaning_simplified.
 
 (* the python condition: exact for a single range with final bounds, on every interpreter a.b.c *)
 Theorem C02_python_condition : forall lo hi imin imax a b c,
